@@ -1086,4 +1086,3 @@ package internal
 //@   pure
 //@   ensures !hasPfx(s, "\x00b64:") ==> result0 == s && result1 == nil        # name: plain-strings-read-as-written
 //@   ensures forall x string :: s == escOf(x) ==> result0 == x && result1 == nil                  # name: decoding-undoes-encoding
-
